@@ -41,7 +41,7 @@ type BatchOut struct {
 const (
 	maxSigs       = 200000
 	maxSamples    = 4
-	maxViolations = 40
+	maxViolations = 300 // at most 3 per distinct finding key
 )
 
 // Ctx is handed to a property's Run function (one batch in one process).
@@ -52,12 +52,13 @@ type Ctx struct {
 	Batch    int
 	NBatches int
 
-	mu       sync.Mutex
-	out      BatchOut
-	sigs     map[uint64]struct{}
-	progress string
-	outPath  string
-	started  time.Time
+	mu         sync.Mutex
+	out        BatchOut
+	sigs       map[uint64]struct{}
+	perFinding map[string]int
+	progress   string
+	outPath    string
+	started    time.Time
 }
 
 // NewCtx creates a batch context.
@@ -185,7 +186,12 @@ func (c *Ctx) SetExhaustive() {
 // Violate records a refuting observation.
 func (c *Ctx) Violate(caseID, finding, detail string, replay any) {
 	c.mu.Lock()
-	if len(c.out.Violations) < maxViolations {
+	if c.perFinding == nil {
+		c.perFinding = map[string]int{}
+	}
+	c.perFinding[finding]++
+	c.out.Counters["violation_observations"]++
+	if c.perFinding[finding] <= 3 && len(c.out.Violations) < maxViolations {
 		if len(detail) > 4000 {
 			detail = detail[:4000] + "…"
 		}
@@ -193,6 +199,8 @@ func (c *Ctx) Violate(caseID, finding, detail string, replay any) {
 			Violation{Case: caseID, Finding: finding, Detail: detail, Replay: replay})
 	} else {
 		c.out.ViolDropped++
+		c.mu.Unlock()
+		return
 	}
 	c.mu.Unlock()
 	c.Flush(false)
